@@ -55,12 +55,31 @@ class TlcResult:
         self.wall = 0.0
 
 
-def run_tlc(module, cfg, workers=4, timeout=900, env_extra=None, simulate=None, depth=None,
+def run_tlc(module, cfg, **kw):
+    """run_tlc with one retry on tool errors (never on violations): a loaded machine can make the JVM fail to start."""
+    try:
+        return _run_tlc(module, cfg, **kw)
+    except ToolError as e:
+        log(f"[tlc] {e}; retrying once")
+        time.sleep(5)
+        return _run_tlc(module, cfg, **kw)
+
+
+def _save_failure(module, cfg, text):
+    try:
+        os.makedirs(WORK, exist_ok=True)
+        with open(os.path.join(WORK, "last_tlc_failure.txt"), "w") as f:
+            f.write(f"{module}/{cfg}\n" + text[-20000:])
+    except Exception:
+        pass
+
+
+def _run_tlc(module, cfg, workers=4, timeout=900, env_extra=None, simulate=None, depth=None,
             heap="4g", tags=(), dfs=False, seed=None, tag="tlc"):
     """Run TLC on spec/<module>.tla with spec/mc/<cfg>. PrintT'd <<"TAG", json>> lines are collected."""
     wd = workdir(tag)
     meta = os.path.join(wd, "meta")
-    jopts = f"-Xss1g -Xmx{heap} -XX:+UseParallelGC"
+    jopts = f"-Xss512m -Xmx{heap}"
     if dfs:
         jopts += " -Dtlc2.tool.queue.IStateQueue=StateDeque"
     env = dict(os.environ, JAVA_TOOL_OPTIONS=jopts)
@@ -110,10 +129,12 @@ def run_tlc(module, cfg, workers=4, timeout=900, env_extra=None, simulate=None, 
         return res
     if p.returncode != 0 or ("Model checking completed. No error has been found." not in text
                              and "Finished in" not in text):
-        log(text[-3000:])
+        _save_failure(module, cfg, text)
+        log(text[-1500:])
         raise ToolError(f"TLC failed on {module}/{cfg} (exit {p.returncode})")
     if "Error:" in text:
-        log(text[-3000:])
+        _save_failure(module, cfg, text)
+        log(text[-1500:])
         raise ToolError(f"TLC reported an error on {module}/{cfg}")
     res.ok = True
     return res
